@@ -18,5 +18,7 @@ CONSTANTS
   TrackHist = FALSE
   RecoveryAbortsOnLostRace = FALSE
   IndexBeforeRoute = TRUE
+  IncBeforeRetry = TRUE
+  WaitedOn = {}
 CONSTRAINT Bounded
 PROPERTY EventuallyFinal
